@@ -3,9 +3,9 @@ package main
 import (
 	"bytes"
 	"compress/gzip"
-	"io"
 	"encoding/binary"
 	"fmt"
+	"io"
 
 	"connectrpc.com/vanguard"
 	testv1 "connectrpc.com/vanguard/internal/gen/vanguard/test/v1"
